@@ -120,7 +120,7 @@ def fam_link():
                     call("RequireParseableURLs", b=False)])
     recipes.append([call("ZeroValue"), call("RequireNoFollowOnLinks", b=True), call("AddTargetBlankToFullyQualifiedLinks", b=True),
                     AA(["href", "rel", "target"], ["a", "area", "link"]), call("AllowURLSchemes", schemes=["http", "https"])])
-    alpha = (av("href", ["http://e.com/x", "/rel", "javascript:x", "http://e.com/%zz"]) +
+    alpha = (av("href", ["http://e.com/x", "/rel", "javascript:x", "http://e.com/%zz", "/p?a\u00a0#"]) +
              av("rel", ["nofollow", "NOFOLLOW", "xnofollowx", "tag noopener", "notnoopenerx noreferrer"]) +
              av("target", ["_blank", "_top"]))
     return dict(name="link", recipes=recipes, tokens=[], attrs={"a": alpha, "area": alpha, "link": alpha})
@@ -130,7 +130,8 @@ URLS = ["http://example.org/a?b=1&c=2", "https://e.com", "/rel/path", "#frag", "
         "mailto:a@b.c", "//host/p", "http://a b/", "%zz", "", "ftp://f/x", "tel:+1", "http:\\\\e.com\\p", "HTTP://EXAMPLE.ORG/Up",
         "http://u:p@example.org/", "\x01javascript:alert(1)", "x:y", "?q=1", "http://example.com/\u00e9",
         " http://example.org/lead", "https://e.com/trail\n", "data:image/png;base64,iVBO\nRw0KGgo=",
-        "https:opaque.example/p.gif", "httpx://e.com/", "a b", "x\ty", "/caf\u00e9/menu", "http://e.com/%zz"]
+        "https:opaque.example/p.gif", "httpx://e.com/", "a b", "x\ty", "/caf\u00e9/menu", "http://e.com/%zz",
+        "/p?a\u00a0#", "?q\u2003#"]     # Unicode white space in front of an empty fragment
 
 def fam_url():
     """C03: every listed URL position x the URL catalogue x scheme allowlists / custom checks / relative / rewriter."""
@@ -214,7 +215,8 @@ STYLES = ["color: red", "color: red; background: url(javascript:alert(1))", "COL
           "width: expression(alert(1))", "color: \\72 ed", "-webkit-transition: none", "color: red !important",
           "background-image: url('http://e.com/a;b.png')", "/* c */ color: blue", "color", "color: r\\65 d",
           "font-family: \\110000 x", "color: re\\20 d", "font-size: 12px; color: blue; width: 1px", "-moz--webkit-color: red", "",
-          "color: r\\65D", "color: b\\6Cue", "width: 1px", "COLOR: \\52 ED", "width: red", "color: #fff"]
+          "color: r\\65D", "color: b\\6Cue", "width: 1px", "COLOR: \\52 ED", "width: red", "color: #fff",
+          "color: \\5c 72 ed"]      # an escape that decodes to a backslash in front of hex digits: decoded once, never rescanned
 
 def fam_style():
     """C10: style rules at the three scopes with the four matcher kinds."""
@@ -275,7 +277,7 @@ def fam_ugc():
             tok("end", "a"), tok("start", "img", (("src", "/i.png"), ("alt", "x"))), tok("start", "img", (("src", "x"), ("onerror", "alert(1)"))),
             tok("start", "img", (("src", "data:image/png;base64,iVBORw0KGgo="),)),
             tok("start", "l\u0130", (("value", "3"),)), tok("start", "q", (("cite", "/caf\u00e9/menu"),)),
-            tok("start", "a", (("href", "httpx://e.com/"),)),
+            tok("start", "a", (("href", "httpx://e.com/"),)), tok("start", "a", (("href", "/p?a\u00a0#"),)),
             tok("start", "td", (("colspan", "2"),)), tok("end", "td"), tok("start", "table"), tok("end", "table"),
             tok("start", "del", (("cite", js),)), tok("start", "q", (("cite", "http://e.com/"),)), tok("end", "q"),
             tok("start", "script"), tok("end", "script"), tok("start", "style"), tok("end", "style"), tok("self", "script"),
@@ -294,6 +296,7 @@ def fam_policy():
     calls = [
         call("AllowElements", names=["B", "p"]), call("AllowElements", names=["b"]), call("AllowElements", names=["span", "A"]),
         AA(["class"], ["span"], match="re:^[a-z]+$"), AA(["CLASS"], [], match="re:^[0-9]+$"), AA(["class"], [], match="re:^[a-z]+$"), AA(["Title"], pat="^custom-", noattrs=True),
+        AA(["class"], pat="-y$"),      # overlaps ^custom- on custom-y: an element reached through two patterns gets the union
         AA([], ["A"], noattrs=True), AA(["href"], ["a"]),
         AS(["color"], "glob"), AS(["COLOR"], "els", els=["Span"], enum="e:red|blue"),
         call("AllowElementsMatching", pat="^x-"),
@@ -334,6 +337,8 @@ def fam_io():
         dict(blank=True, toks=[]),
         dict(blank=False, toks=[tok("start", "a"), tok("start", "img"), tok("end", "a"), tok("self", "b"), tok("start", "b"), tok("end", "b"), T("\u00e9\u4e2d")]),
         dict(blank=False, toks=[tok("start", "b"), T("x"), tok("end", "b"), T("y" * 5000), tok("start", "b"), tok("end", "b")]),
+        # a byte order mark is character data like any other: every entry point and every chunking must treat it alike
+        dict(blank=False, toks=[T("\ufeffbom "), tok("start", "b"), T("x"), tok("end", "b")]),
     ]
     return dict(name="io", recipes=recipes, docs=docs, tokens=[])
 
@@ -344,9 +349,15 @@ def fam_conc():
     pats = [call("NewPolicy"), AA(["class"], pat="^custom-", noattrs=True), AA(["title", "class"], pat="-x$", match="re:^[a-z]+$"),
             AA(["style"], pat=".*"), AS(["color"], "pat", pat="^custom-", enum="e:red|blue"), AS(["color"], "pat", pat="x$", re="r:^green$"),
             AS(["font-size"], "glob"), call("AllowElements", names=["b"]), call("AddSpaceWhenStrippingTag", b=True)]
-    recipes = [[call("UGCPolicy"), call("AllowComments")], pats, [call("StrictPolicy")]]
+    # options whose handling touches maps or (wrongly) the policy itself during a call: sandbox token sets, link options with URL
+    # checking switched off afterwards
+    opts = [call("NewPolicy"), AA(["href"], ["a"]), call("RequireNoFollowOnLinks", b=True), call("RequireParseableURLs", b=False),
+            call("AllowIFrames", vals=["allow-forms", "allow-scripts", "allow-popups"])]
+    recipes = [[call("UGCPolicy"), call("AllowComments")], pats, [call("StrictPolicy")], opts]
     T = lambda d: tok("text", d=d)
     docs = [
+        dict(toks=[tok("start", "iframe", (("sandbox", "allow-scripts allow-forms allow-scripts allow-popups allow-forms"),)), tok("end", "iframe"),
+                   tok("start", "a", (("href", "x y"),)), T("l"), tok("end", "a")]),
         dict(toks=[tok("start", "custom-x", (("class", "abc"), ("style", "color: green; font-size: 12px"))), T("one"), tok("end", "custom-x")]),
         dict(toks=[tok("start", "object"), T("hidden"), tok("end", "object")]),
         dict(toks=[tok("start", "a", (("href", "http://e.com/"),)), T("two"), tok("end", "a")]),
@@ -398,7 +409,25 @@ def fam_nestw():
             tok("start", "span"), tok("end", "span"), tok("start", "br"), tok("text", d="txt")]
     return dict(name="nestw", recipes=recipes, tokens=toks, wellnested=True)
 
-FAMS = dict(nestw=fam_nestw, nest=fam_nest, css=fam_css, conc_zero=fam_conc_zero, conc=fam_conc, io=fam_io, policy=fam_policy, ugc=fam_ugc, conf=fam_conf, loop=fam_loop, loopq=fam_loopq, link=fam_link, url=fam_url, forced=fam_forced, allow=fam_allow, style=fam_style)
+def fam_nestx():
+    """Well-nested documents over raw-text, unsafe, skip-set and pattern elements: how the skip flag, the closing-tag stack and
+    the most-recently-started name interact at depth (explored like nestw)."""
+    base = [call("NewPolicy"), call("AllowElements", names=["b"]), AA(["href"], ["a"]), AA(["class"], ["xmp"]),
+            AA(["class"], pat="^custom-", noattrs=True)]
+    recipes = [base + [call("AllowComments"), call("AddSpaceWhenStrippingTag", b=True)],
+               base + [call("AllowElementsContent", names=["script", "style", "title", "object"])],
+               base + [call("AllowUnsafe", b=True), AA(["type"], ["script"]), call("AllowElements", names=["style"])],
+               base + [call("AllowUnsafe", b=True), call("AllowElementsContent", names=["script", "style"]), call("AllowComments"),
+                       call("SkipElementsContent", names=["custom-x", "a"])]]
+    toks = [tok("start", "a"), tok("start", "a", (("href", "/x"),)), tok("end", "a"),
+            tok("start", "script"), tok("start", "script", (("type", "t"),)), tok("end", "script"),
+            tok("start", "style"), tok("end", "style"), tok("start", "title"), tok("end", "title"),
+            tok("start", "object"), tok("end", "object"), tok("start", "xmp", (("class", "k"),)), tok("end", "xmp"),
+            tok("start", "custom-x"), tok("end", "custom-x"),
+            tok("text", d="<i a=1>t&<x"), tok("comment", d="cmt")]
+    return dict(name="nestx", recipes=recipes, tokens=toks, wellnested=True)
+
+FAMS = dict(nestx=fam_nestx, nestw=fam_nestw, nest=fam_nest, css=fam_css, conc_zero=fam_conc_zero, conc=fam_conc, io=fam_io, policy=fam_policy, ugc=fam_ugc, conf=fam_conf, loop=fam_loop, loopq=fam_loopq, link=fam_link, url=fam_url, forced=fam_forced, allow=fam_allow, style=fam_style)
 
 if __name__ == "__main__":
     here = os.path.dirname(os.path.abspath(__file__))
